@@ -127,28 +127,33 @@ def killChild (s : S) (c : Nat) : S :=
   if isStarting s c then setActor (release s c) c (fun x => { x with failedStart := true })
   else release s c
 
-/-- `terminate`: kill the whole subtree below `a` (fuel = number of actors). Killed running
-descendants report `ActorTerminated` ("killed") to their supervisor — which is exiting and
-no longer records anything; killed starting descendants report nothing at all. -/
+/-- the children taken from one cell are killed — and thereby detached: a released cell is
+linked nowhere -/
+def killChildren (s : S) (kids : List Nat) : S := kids.foldl killChild s
+
+/-- `ActorCell::terminate`: a worklist (`pending`) of cells whose child set is still to be taken.
+Popping `c` takes its children (`take_children`: the set is emptied, the children detached), kills
+them and pushes them. Killed running descendants report `ActorTerminated` ("killed") to their
+supervisor — which is exiting and no longer records anything; killed starting descendants report
+nothing at all. Fuel: see `Lemmas/Spawn.lean` `killSubtree_fuel` — `#linked actors + |worklist|`
+steps always suffice, so the callers' `actors.length + 1` does. -/
 def killSubtree : Nat → S → List Nat → S
   | 0, s, _ => s
   | _, s, [] => s
   | fuel + 1, s, c :: rest =>
     let kids := childrenOf s c
-    killSubtree fuel (killChild s c) (kids ++ rest)
+    killSubtree fuel (killChildren s kids) (kids ++ rest)
 
 /-- the failed-start path: guard cleanup without a supervisor event -/
 def failStart (s : S) (a : Nat) : S :=
-  let kids := childrenOf s a
-  let s1 := killSubtree s.actors.length s kids
+  let s1 := killSubtree (s.actors.length + 1) s [a]
   setActor (release s1 a) a (fun x => { x with failedStart := true })
 
 /-- exit of a RUNNING actor (kill / stop / failure): cleanup with the terminal event to the supervisor -/
 def exitRunning (s : S) (a : Nat) (e : Ev) : S :=
   match s.actors[a]? with
   | some x =>
-    let kids := childrenOf s a
-    let s1 := killSubtree s.actors.length s kids
+    let s1 := killSubtree (s.actors.length + 1) s [a]
     let s2 := match x.sup, x.linked with
       | some p, true => pushEvent s1 p a e
       | _, _ => s1
